@@ -51,6 +51,7 @@ struct World {
     bool check_preload_quiet = true;     // C16/C09: no get_table after ctor under preloadAll
     bool c19_oracle = true;
     bool monitor_c05 = true;
+    bool concurrent = false;            // conc mode: global allocation-count comparisons are meaningless while other fibers run
     bool exercise_segs = false;         // C02: call every accessor with every attribute code
     OverrideFn override_fn = 0;
     std::vector<u32> report_cps;         // code points for face self-reports
@@ -68,7 +69,7 @@ struct World {
     void destroy_font(int i);
     void destroy_seg(int i);
     void destroy_fval(int i);
-    OpResult op_make_seg(const Op &op, bool probe);
+    OpResult op_make_seg(const Op &op, bool probe, bool shared_font = false);
     OpResult op_linebreak(const Op &op);
     OpResult op_justify(const Op &op);
     OpResult op_face_query(const Op &op);
